@@ -17,6 +17,16 @@ PENDING = 'check not built yet in this session; see DESIGN.md section 5 for the 
 NOT_APPLICABLE = {('C%02d' % i): PENDING for i in range(1, 21)}
 
 CHECKS = {
+    'C15': {
+        'engine': 'obligations + siblings',
+        'technique': 'dominance / single-exit obligations on the peeling loop, paired row/column zeroing, def-use of the degree vector, resolved callee per variant, feature agreement of the three siblings, ordering/guard rules for the coreness assignment',
+        'text': 'kcore_bd, kcore_bu, score_wu: copy before the loop, argument untouched; degrees/strengths recomputed from the working copy as the first '
+                'statement of every iteration by the matching routine; peel set = {0 < d < bound}; rows and columns of exactly that set zeroed, nothing '
+                'else written; the loop ends only when the set is empty; size = #(d > 0) of the last vector; peel records once per iteration; the three '
+                'siblings agree. kcoreness: k ascends over range(N), core and kn[k] from one call, membership from the returned core (total degree for '
+                'the directed variant), unguarded assignment.',
+        'note': 'Maximality and nestedness follow from the fixed-point argument given these premises; that argument is cited, not mechanised.',
+    },
     'C08': {
         'engine': 'obligations + siblings',
         'technique': 'fill-pointer typestate of the visiting-order array, exhaustive relaxation-branch obligations, dependency-formula templates, per-source allocation (dominance in the source loop), feature agreement between sibling routines',
